@@ -1,5 +1,5 @@
 (* C08 proofs, part 3: every handler of Model/Lend.v preserves the invariant; histories. *)
-From Comdex Require Import Lib.Base Lib.DecArith Model.Lend Proofs.LendProofs Proofs.LendProofsInv.
+From Comdex Require Import Lib.Base Lib.DecArith Model.Lend Proofs.LendProofs Proofs.LendProofsInv Proofs.LendProofsSide.
 From Coq Require Import ZifyBool.
 
 Ltac destr H :=
@@ -82,6 +82,7 @@ Section Steps.
     match goal with H : negb (is_nil (l_bids ?l)) = false |- _ =>
       assert (Hb : l_bids l = []) by (destruct (l_bids l); [reflexivity|discriminate]) end.
     finish_ok H. eapply (T_dellend cfg _ _ _ _ _ HI1); try (intros k; apply pget_pset2); try eassumption; try reflexivity.
+    eapply unref_nobids; eassumption.
   Qed.
 
   Lemma withdraw_inv st user lid denom amt ipb st' :
@@ -134,5 +135,77 @@ Section Steps.
   Proof.
     intros HI H. unfold deposit_borrow_asset in H. destr_all H; use_iter_b HI HI1; finish_ok H;
       (eapply (T_pledge cfg _ _ _ _ _ HI1 bid (iter_b b e)); try eassumption; try reflexivity; rewrite ?zget_zset_same; try reflexivity).
+  Qed.
+
+  (* ---------- the side invariant and the oracle prices under the same handlers ---------- *)
+  Ltac side_start HG :=
+    let HI := fresh "HI" in let HS := fresh "HS" in destruct HG as (HI & HS); unfold Inv in HI.
+  Ltac fin H := injection H as <-; cbn [lends borrows sstats lctr bctr prices bnk with_bank with_books].
+
+  Lemma iterate_lends_side st lid ipb st1 :
+    Side cfg (lends st) (borrows st) -> iterate_lends cfg st lid ipb = Ok st1 ->
+    Side cfg (lends st1) (borrows st1) /\ prices st1 = prices st.
+  Proof.
+    intros HS H. unfold iterate_lends in H. destr_all H; fin H; (split; [|reflexivity]);
+      (eapply S_lend_upd; [exact HS|eassumption|reflexivity]).
+  Qed.
+  Lemma iterate_lends_good st lid ipb st1 :
+    Good cfg st -> iterate_lends cfg st lid ipb = Ok st1 -> Good cfg st1 /\ prices st1 = prices st.
+  Proof.
+    intros (HI & HS) H. destruct (iterate_lends_side _ _ _ _ HS H) as (HS1 & HP).
+    split; [split; [exact (iterate_lends_inv _ _ _ _ HI H)|exact HS1]|exact HP].
+  Qed.
+
+  Ltac get_iter_lg HG HI1 HS1 HP1 :=
+    match goal with H : iterate_lends _ _ _ _ = Ok _ |- _ =>
+      destruct (iterate_lends_good _ _ _ _ HG H) as ((HI1 & HS1) & HP1); unfold Inv in HI1 end.
+
+  Lemma deposit_good st user lid denom amt ipb st' :
+    Good cfg st -> deposit_asset cfg st user lid denom amt ipb = Ok st' -> Good cfg st' /\ prices st' = prices st.
+  Proof.
+    intros HG H. split; [split; [exact (deposit_inv _ _ _ _ _ _ _ (Good_Inv _ _ HG) H)|]|];
+      unfold deposit_asset in H; destr_all H; get_iter_lg HG HI1 HS1 HP1; fin H.
+    - eapply S_lend_upd; [exact HS1|eassumption|reflexivity].
+    - exact HP1.
+  Qed.
+
+  Lemma lend_good st user asset denom amt poolid app ipb st' :
+    Good cfg st -> lend_asset cfg st user asset denom amt poolid app ipb = Ok st' -> Good cfg st' /\ prices st' = prices st.
+  Proof.
+    intros HG H. pose proof (lend_inv _ _ _ _ _ _ _ _ _ (Good_Inv _ _ HG) H) as HI'.
+    unfold lend_asset in H. destr_all H.
+    - eapply deposit_good; eassumption.
+    - destruct HG as (HI & HS). fin H. split; [split; [exact HI'|]|reflexivity].
+      cbn [lends borrows]. eapply S_lend_new; [exact HS|]. eapply unref_fresh; [exact HI|lia].
+  Qed.
+
+  Lemma close_lend_good st user lid ipb st' :
+    Good cfg st -> close_lend cfg st user lid ipb = Ok st' -> Good cfg st' /\ prices st' = prices st.
+  Proof.
+    intros HG H. pose proof (close_lend_inv _ _ _ _ _ (Good_Inv _ _ HG) H) as HI'.
+    unfold close_lend in H. destr_all H. get_iter_lg HG HI1 HS1 HP1.
+    match goal with H : negb (is_nil (l_bids ?l)) = false |- _ =>
+      assert (Hb : l_bids l = []) by (destruct (l_bids l); [reflexivity|discriminate]) end.
+    fin H. split; [split; [exact HI'|]|exact HP1]. cbn [lends borrows with_bank with_books].
+    eapply S_lend_del; [exact HS1|]. eapply unref_nobids; eassumption.
+  Qed.
+
+  Lemma withdraw_good st user lid denom amt ipb st' :
+    Good cfg st -> withdraw_asset cfg st user lid denom amt ipb = Ok st' -> Good cfg st' /\ prices st' = prices st.
+  Proof.
+    intros HG H. pose proof (withdraw_inv _ _ _ _ _ _ _ (Good_Inv _ _ HG) H) as HI'.
+    unfold withdraw_asset in H. destr_all H.
+    - eapply close_lend_good; eassumption.
+    - get_iter_lg HG HI1 HS1 HP1. fin H. split; [split; [exact HI'|]|exact HP1]. cbn [lends borrows with_bank with_books].
+      eapply S_lend_upd; [exact HS1|eassumption|reflexivity].
+  Qed.
+
+  Lemma iterate_borrow_good st bid e st1 :
+    Good cfg st -> iterate_borrow st bid e = Ok st1 -> Good cfg st1 /\ prices st1 = prices st.
+  Proof.
+    intros (HI & HS) H. pose proof (iterate_borrow_inv _ _ _ _ HI H) as HI'.
+    apply iterate_borrow_spec in H as (b0 & Hb0 & ->). split; [split; [exact HI'|]|reflexivity].
+    cbn [lends borrows with_books]. eapply S_bor_upd; [exact HS|exact Hb0|reflexivity|reflexivity|reflexivity|].
+    cbn [iter_b upd_borrow b_in]. intros Hq. exact (proj1 (HS _ _ Hb0 Hq)).
   Qed.
 End Steps.
